@@ -175,6 +175,13 @@ def handle : List Sexp → Option String
       let tags := triples n a
       let sub := a.drop (3 * n)
       some (out (GenK.wrapTags (indefOk == "1") (ine == "1") tags (dm == "1") sub (ic == "1") (io == "1")))
+  | .atom "KREQSEEN" :: .atom indef :: .atom nreq :: args => do
+      let a ← intArgs args
+      let k ← nreq.toNat?
+      let r := if indef == "1" then GenK.requiredSeenIndef (a.take k) (a.drop k) else GenK.requiredSeen (a.take k) (a.drop k)
+      some (match r with
+        | .ok v => s!"ok {v}"
+        | .error e => "err " ++ errName e)
   | .atom "KBERBOOLDEC" :: args => do
       let a ← intArgs args
       some (match GenK.intDecode a >>= GenK.berBoolDec with
